@@ -100,6 +100,16 @@ def oracle(ck, extended):
             for (h, w) in ((1, 5), (5, 1), (2, 2), (1, 1)):
                 rt.guard(ck, oracle_eq, ck, m, False, (c0, c1, c0, c1), co=gen.int_tensor(rng, (1, 2, 4, h, w)))
                 rt.guard(ck, oracle_eq, ck, m, True, (c0, c1, r0, r1), co=gen.int_tensor(rng, (1, 2, 4, h, w)))
+    # images / coefficient arrays above every blocking / tiling threshold (gen.scale_shapes_2d), the four shared modes, filters
+    # of several lengths (what breaks above a threshold often breaks only when the last block is thinner than the filter)
+    for k, shp in enumerate(gen.scale_shapes_2d(ck.tier)):
+        for m in MODES4:
+            Lc = [4, 6, 8, 10, 16][(k + m) % 5]; four = (k + m) % 3 == 0; Lr = 2 if four else Lc
+            c0 = gen.int_filter(rng, Lc); c1 = gen.int_filter(rng, Lc)
+            r0, r1 = (gen.int_filter(rng, Lr), gen.int_filter(rng, Lr)) if four else (c0, c1)
+            rt.guard(ck, oracle_eq, ck, m, four, (c0, c1, r0, r1), x=gen.int_tensor(rng, shp))
+            if (k + m) % 2 == 0:
+                rt.guard(ck, oracle_eq, ck, m, four, (c0, c1, r0, r1), co=gen.int_tensor(rng, (shp[0], shp[1], 4, max(1, shp[2] // 2), max(1, shp[3] // 2))))
     for it in range((120 if q else 1200) * (3 if extended else 1)):
         Lc = rng.randint(2, 8 if q else 14); m = rng.choice(MODES4)
         four = rng.random() < 0.5
